@@ -235,7 +235,7 @@ func init() {
 				maxLen = 5
 			}
 			c.rep.Exhaustive = true
-			alphabet := []string{"first", "first-foreign", "first-trunc", "first-malformed", "final", "final-otherkey", "final-empty", "empty", "junk", "235", "535"}
+			alphabet := []string{"first", "first-foreign", "first-trunc", "first-malformed", "final", "final-otherkey", "final-empty", "final-blank", "final-trunc", "empty", "junk", "235", "535"}
 			var seqs [][]string
 			var gen func(prefix []string)
 			gen = func(prefix []string) {
